@@ -89,7 +89,8 @@ func runC07(c *fw.Case) {
 	limit := gen.Pick(r, uint64(9), 64, 1024, 1<<20)
 	wbuf := gen.Pick(r, 64, 4096, 0)
 	comp := r.Intn(4)
-	dir := filepath.Join(c.Dir, "wal")
+	// the log lives in a directory whose name may contain characters that mean something to pattern matchers and shells
+	dir := filepath.Join(c.Dir, gen.Pick(r, "wal", "wal", "wal[0]", "shard[a-c]", "w a l", "wal*", "wäl?{1,2}"))
 	// every 20th program logs through the direct-I/O writer (block-aligned writes of a whole 8 KiB buffer, zero-padded
 	// tail; Append only — AppendSync is refused by that writer, as documented) on a real file system
 	direct := c.Idx%20 == 7
